@@ -80,6 +80,7 @@ type GuardClause struct {
 type ReachClause struct {
 	SetName string  // ghost variable assigned when the statement is passed ("" = none)
 	SetExpr *Clause // its new value
+	Optional bool // `never`: need not match any statement
 	Nth    int // 0: every statement with this text; k>0: only the k-th in source order
 	Stmt   string
 	Clause *Clause
@@ -128,7 +129,7 @@ type ContractFile struct {
 
 var clauseKeywords = map[string]bool{
 	"func": true, "spec": true, "ghost": true, "lemma": true, "axiom": true, "bvlemma": true,
-	"requires": true, "ensures": true, "assumes": true, "assumes_pre": true, "guarded": true, "literal": true, "loop": true, "callback": true, "nopanic": true,
+	"requires": true, "ensures": true, "assumes": true, "assumes_pre": true, "guarded": true, "literal": true, "never": true, "loop": true, "callback": true, "nopanic": true,
 	"assigns": true, "effects": true, "calls": true, "pure": true,
 	"trusted": true, "inline": true, "reach": true, "sends": true, "opaque": true, "sticky": true, "abstract": true, "callee": true, "crash_invariant": true, "results": true,
 }
@@ -351,12 +352,19 @@ func parseContractFile(path, pkgPath string) (*ContractFile, error) {
 			default:
 				return nil, fmt.Errorf("%s:%d: unknown loop clause %q", path, rl.line, fs[1])
 			}
-		case "reach":
+		case "reach", "never":
 			if err := needCur(); err != nil {
 				return nil, err
 			}
 			// reach "<statement text>" only_if <expr>
 			q := strings.TrimSpace(rest)
+			optional := false
+			if w == "never" {
+				// never "call:NAME": the function makes no such call (a gate with
+				// the condition false that need not match anything)
+				q += " only_if false"
+				optional = true
+			}
 			nth := 0
 			if len(q) > 0 && q[0] >= '1' && q[0] <= '9' {
 				j := 0
@@ -414,7 +422,7 @@ func parseContractFile(path, pkgPath string) (*ContractFile, error) {
 			if err != nil {
 				return nil, err
 			}
-			cur.Reach = append(cur.Reach, &ReachClause{Nth: nth, Stmt: normText(stmt), Clause: c, SetName: setName, SetExpr: setClause})
+			cur.Reach = append(cur.Reach, &ReachClause{Nth: nth, Stmt: normText(stmt), Clause: c, SetName: setName, SetExpr: setClause, Optional: optional})
 		case "nopanic":
 			if err := needCur(); err != nil {
 				return nil, err
